@@ -10,7 +10,7 @@ import (
 )
 
 var voteVariants = []string{"flip", "wrongkey", "crosskind", "otherround", "othertarget", "zerosig", "emptysig", "idrange", "idN", "idmax", "idlen0", "idlen1", "idlen3", "badpkh", "oldset", "mix", "dupid", "emptymap"}
-var phVariants = []string{"forgedNext", "forgedCur", "forgedNextPK", "forgedCurPK", "badhash", "nonval", "badsig", "nokey", "badpcp", "shortpcp", "foreignpcp", "duppcp", "emptypcp", "pcpidN", "pcpidlen1"}
+var phVariants = []string{"forgedNext", "forgedCur", "forgedNextPK", "forgedCurPK", "badhash", "nonval", "badsig", "nokey", "badpcp", "shortpcp", "foreignpcp", "duppcp", "pcpnil3", "emptypcp", "pcpidN", "pcpidlen1"}
 var replayVariants = []string{"ok", "lowpower", "byzonly", "nextround", "prevH", "nextH", "badhash", "badprev", "foreign", "blockB", "nosigs", "pvsigs"}
 
 // alphabet lists the environment events. "full" is used for single deviations, "core" where the space is squared or cubed.
@@ -69,7 +69,7 @@ func alphabet(level string) []string {
 		}
 	}
 	for _, v := range phVariants {
-		if level == "core" && !(v == "forgedNext" || v == "forgedNextPK" || v == "badsig") {
+		if level == "core" && !(v == "forgedNext" || v == "forgedNextPK" || v == "badsig" || v == "pcpnil3") {
 			continue
 		}
 		add("PH:A:" + v)
@@ -85,6 +85,7 @@ func alphabet(level string) []string {
 	}
 	add("FE:A", "FE:B")
 	add("VZ:p", "VZ:c")
+	add("MAPREV")
 	// the caller of the next message gives up at its k-th kernel round-trip point
 	add("CANCEL:2")
 	if level != "core" {
@@ -360,7 +361,7 @@ func nodeAlphabet(level string) []string {
 	} else {
 		add("PH:A:forgedNext", "RP:ok")
 	}
-	add("VZ:p", "VZ:c")
+	add("VZ:p", "VZ:c", "MAPREV")
 	add("SR", "SR:propose", "SR:A", "SR:B", "SR:nil", "SR:notready", "TF", "DR", "Tick", "BDA", "PROP", "Restart")
 	if level != "core" {
 		add("SR:X", "SR:N")
